@@ -31,21 +31,23 @@ func init() {
 	register("C07", c07RaceParent)
 	register("C07race", c07RaceChild)
 	replayers["C07/sched"] = func(r *Result, input json.RawMessage) {
-		var c scCase
+		var c c07ScCase
 		if json.Unmarshal(input, &c) != nil {
 			return
 		}
-		c07SchedBatch(r, []scCase{c}, true)
+		c07SchedBatch(r, []c07ScCase{c}, true)
 	}
+	replayers["C07/sched-static"] = func(r *Result, input json.RawMessage) { c07CheckStaticCfg(r) }
 	replayers["C07/race"] = c07RaceReplay
+	replayers["C07/race-single-winner"] = c07RaceReplay
 }
 
-type scCase struct {
+type c07ScCase struct {
 	Progs [][]int `json:"progs"`
 	Sched []int   `json:"sched"`
 }
 
-type scLean struct {
+type c07ScLean struct {
 	Trace    []json.RawMessage `json:"trace"`
 	Det      bool              `json:"det"`
 	Done     bool              `json:"done"`
@@ -56,19 +58,19 @@ type scLean struct {
 	Nobj     int               `json:"nobj"`
 }
 
-type scStep struct {
+type c07ScStep struct {
 	T  int
 	St []string
 }
 
-func (l *scLean) steps() []scStep {
-	var out []scStep
+func (l *c07ScLean) steps() []c07ScStep {
+	var out []c07ScStep
 	for _, raw := range l.Trace {
 		var pair []json.RawMessage
 		if json.Unmarshal(raw, &pair) != nil || len(pair) != 2 {
 			continue
 		}
-		var s scStep
+		var s c07ScStep
 		_ = json.Unmarshal(pair[0], &s.T)
 		_ = json.Unmarshal(pair[1], &s.St)
 		out = append(out, s)
@@ -76,15 +78,15 @@ func (l *scLean) steps() []scStep {
 	return out
 }
 
-var scClusters = [][]int{
+var c07ScClusters = [][]int{
 	{0, 1, 10}, {2, 3, 4}, {5}, {6, 7, 9}, {0, 1, 9, 10, 6, 7}, {11, 12, 0, 2, 5}, {7, 8}, {0, 1, 2, 3, 4, 5, 6, 7, 8, 9, 10, 11, 12},
-	{11, 12}, {9, 6}, {0, 9, 11},
+	{11, 12}, {9, 6}, {0, 9, 11}, {0, 1, 13}, {13, 1},
 }
 
-func genScCase(rng *rand.Rand) scCase {
+func c07GenScCase(rng *rand.Rand) c07ScCase {
 	g := 2 + rng.Intn(3)
-	cl := scClusters[rng.Intn(len(scClusters))]
-	c := scCase{}
+	cl := c07ScClusters[rng.Intn(len(c07ScClusters))]
+	c := c07ScCase{}
 	for t := 0; t < g; t++ {
 		n := 1 + rng.Intn(3)
 		p := []int{}
@@ -99,38 +101,44 @@ func genScCase(rng *rand.Rand) scCase {
 	return c
 }
 
-func os07Only() string { return os.Getenv("C07_ONLY") }
+func c07Only() string { return os.Getenv("C07_ONLY") }
 
 func c07Sched(r *Result, rng *rand.Rand, tier string) {
 	if o := os.Getenv("C07_ONLY"); o != "" && o != "sched" { // development aid
 		return
 	}
-	n := 1500
+	// the forced-schedule runs are latency bound (goroutine wake-ups, runtime.Stack polling): bounded by wall time too
+	n, wall := 800, 30*time.Second
 	if tier == "thorough" {
-		n = 12000
+		n, wall = 12000, 8*time.Minute
 	} else if tier == "search" {
-		n = 4000
+		n, wall = 2000, 40*time.Second
 	}
+	stopAt := time.Now().Add(wall)
 	logger.Default = logger.Discard // schema.Parse logs relation errors through the package-level default logger
 	// static description self-check against a serial parse on the real code
 	c07CheckStaticCfg(r)
-	var cases []scCase
+	var cases []c07ScCase
 	// fixed corpus: the model-level counterexample schedules and cyclic contention
 	cases = append(cases,
-		scCase{Progs: [][]int{{0}, {1}}, Sched: []int{0, 1, 0, 1, 1}},
-		scCase{Progs: [][]int{{0}, {0}, {0}}, Sched: []int{0, 1, 2, 2, 1, 0}},
-		scCase{Progs: [][]int{{6, 6}, {6}}, Sched: []int{0, 1, 0, 1, 0, 1}},
-		scCase{Progs: [][]int{{9}, {6}}, Sched: []int{1, 0, 1, 0, 0, 0, 1}},
-		scCase{Progs: [][]int{{2}, {3}, {4}}, Sched: []int{0, 1, 2, 0, 1, 2, 0, 1, 2}},
+		c07ScCase{Progs: [][]int{{0}, {1}}, Sched: []int{0, 1, 0, 1, 1}},
+		c07ScCase{Progs: [][]int{{0}, {0}, {0}}, Sched: []int{0, 1, 2, 2, 1, 0}},
+		c07ScCase{Progs: [][]int{{6, 6}, {6}}, Sched: []int{0, 1, 0, 1, 0, 1}},
+		c07ScCase{Progs: [][]int{{9}, {6}}, Sched: []int{1, 0, 1, 0, 0, 0, 1}},
+		c07ScCase{Progs: [][]int{{2}, {3}, {4}}, Sched: []int{0, 1, 2, 0, 1, 2, 0, 1, 2}},
 	)
 	for i := 0; i < n; i++ {
-		cases = append(cases, genScCase(rng))
+		cases = append(cases, c07GenScCase(rng))
 	}
-	for i := 0; i < len(cases); i += 500 {
+	for i := 0; i < len(cases); i += 100 {
 		if expired() {
 			break
 		}
-		j := i + 500
+		if time.Now().After(stopAt) {
+			r.Note("sched: wall-time bound reached after %d of %d generated schedules (machine load)", i, len(cases))
+			break
+		}
+		j := i + 100
 		if j > len(cases) {
 			j = len(cases)
 		}
@@ -139,39 +147,59 @@ func c07Sched(r *Result, rng *rand.Rand, tier string) {
 }
 
 // c07CheckStaticCfg parses every Sc* type serially with a fresh cache and compares relation fields / back references /
-// errors with the hand-written relation graph scCfg that is sent to the model.
+// errors with the hand-written relation graph c07ScCfg that is sent to the model.
 func c07CheckStaticCfg(r *Result) {
-	for ty := range scTypes {
+	for ty := range c07ScTypes {
 		cache := &sync.Map{}
-		s, err := schema.Parse(scTypes[ty](), cache, schema.NamingStrategy{})
+		type pr struct {
+			s   *schema.Schema
+			err error
+		}
+		ch := make(chan pr, 1)
+		go func() {
+			s, err := schema.Parse(c07ScTypes[ty](), cache, schema.NamingStrategy{})
+			ch <- pr{s, err}
+		}()
+		var s *schema.Schema
+		var err error
+		select {
+		case v := <-ch:
+			s, err = v.s, v.err
+		case <-time.After(10 * time.Second):
+			// a single goroutine parsing one model with a cold cache must terminate (20x margin over the observed < 1 ms is
+			// far exceeded): this is the property failing on the simplest possible input, not an inconclusive timeout
+			r.Violate(Violation{Kind: "e2e", Suite: "sched-static", Input: c07ScTypeNames[ty], Observed: "schema.Parse did not return within 10 s (single goroutine, cold cache)",
+				Expected: "Parse returns", Note: "first use of a model type blocks forever"})
+			return
+		}
 		wantErr := false
-		for _, rel := range scCfg[ty] {
+		for _, rel := range c07ScCfg[ty] {
 			if rel.Bad {
 				wantErr = true
 			}
 		}
-		// nested error: ScM -> ScBad
+		// nested error: C07ScM -> C07ScBad
 		if ty == 9 {
 			wantErr = true
 		}
 		if (err != nil) != wantErr {
-			r.Violate(Violation{Kind: "correspondence", Suite: "sched-static", Input: scTypeNames[ty],
+			r.Violate(Violation{Kind: "correspondence", Suite: "sched-static", Input: c07ScTypeNames[ty],
 				Observed: fmt.Sprint(err), Expected: fmt.Sprintf("error=%v", wantErr), Note: "static relation graph description differs from gorm's serial parse"})
 			continue
 		}
 		if err != nil {
 			continue
 		}
-		for _, rel := range scCfg[ty] {
+		for _, rel := range c07ScCfg[ty] {
 			rr, ok := s.Relationships.Relations[rel.Field]
-			if !ok || rr.FieldSchema.ModelType.Name() != scTypeNames[rel.Target] {
-				r.Violate(Violation{Kind: "correspondence", Suite: "sched-static", Input: scTypeNames[ty] + "." + rel.Field,
-					Observed: fmt.Sprint(ok), Expected: scTypeNames[rel.Target], Note: "relation target differs"})
+			if !ok || rr.FieldSchema.ModelType.Name() != c07ScTypeNames[rel.Target] {
+				r.Violate(Violation{Kind: "correspondence", Suite: "sched-static", Input: c07ScTypeNames[ty] + "." + rel.Field,
+					Observed: fmt.Sprint(ok), Expected: c07ScTypeNames[rel.Target], Note: "relation target differs"})
 				continue
 			}
 			isHas := (rr.Type == schema.HasOne || rr.Type == schema.HasMany) && rr.Polymorphic == nil
 			if isHas != rel.Has {
-				r.Violate(Violation{Kind: "correspondence", Suite: "sched-static", Input: scTypeNames[ty] + "." + rel.Field,
+				r.Violate(Violation{Kind: "correspondence", Suite: "sched-static", Input: c07ScTypeNames[ty] + "." + rel.Field,
 					Observed: string(rr.Type), Expected: fmt.Sprintf("has=%v", rel.Has), Note: "relation kind differs"})
 			}
 		}
@@ -181,16 +209,16 @@ func c07CheckStaticCfg(r *Result) {
 				n++
 			}
 		}
-		if n != len(scCfg[ty]) {
-			r.Violate(Violation{Kind: "correspondence", Suite: "sched-static", Input: scTypeNames[ty],
-				Observed: n, Expected: len(scCfg[ty]), Note: "number of relation fields differs"})
+		if n != len(c07ScCfg[ty]) {
+			r.Violate(Violation{Kind: "correspondence", Suite: "sched-static", Input: c07ScTypeNames[ty],
+				Observed: n, Expected: len(c07ScCfg[ty]), Note: "number of relation fields differs"})
 		}
 	}
 }
 
-func c07SchedBatch(r *Result, cases []scCase, replay bool) {
+func c07SchedBatch(r *Result, cases []c07ScCase, replay bool) {
 	ops := make([][]interface{}, len(cases))
-	cfg := scCfgJSON()
+	cfg := c07ScCfgJSON()
 	for i, c := range cases {
 		ops[i] = []interface{}{"sc.sched", cfg, c.Progs, c.Sched}
 	}
@@ -205,7 +233,7 @@ func c07SchedBatch(r *Result, cases []scCase, replay bool) {
 			// every mismatch costs a goroutine-state timeout; five replays are enough to report
 			break
 		}
-		var l scLean
+		var l c07ScLean
 		if err := json.Unmarshal(outs[i], &l); err != nil {
 			r.Violate(Violation{Kind: "correspondence", Suite: "sched", Input: c, Observed: string(outs[i]), Expected: "model output"})
 			continue
@@ -223,7 +251,7 @@ func c07SchedBatch(r *Result, cases []scCase, replay bool) {
 			continue
 		}
 		steps := l.steps()
-		r.H("sched.releases", bucket(len(steps)))
+		r.H("sched.releases", c07Bucket(len(steps)))
 		for _, b := range l.Branches {
 			r.H("sched.model-branch", b)
 		}
@@ -240,7 +268,7 @@ func c07SchedBatch(r *Result, cases []scCase, replay bool) {
 		}
 		contended := c07Contended(c)
 		r.H("sched.kind", fmt.Sprintf("contended=%v blockedStates=%v", contended, blocked > 0))
-		obs, status := scRunReal(c, steps)
+		obs, status := c07ScRunReal(c, steps)
 		if status == "inconclusive" {
 			r.H("sched.kind", "inconclusive:"+fmt.Sprint(obs["why"]))
 			continue
@@ -276,7 +304,7 @@ func c07SchedBatch(r *Result, cases []scCase, replay bool) {
 	}
 }
 
-func bucket(n int) string {
+func c07Bucket(n int) string {
 	switch {
 	case n <= 2:
 		return "0-2"
@@ -292,7 +320,7 @@ func bucket(n int) string {
 }
 
 // contended: at least two threads request the same type or directly related types
-func c07Contended(c scCase) bool {
+func c07Contended(c c07ScCase) bool {
 	for a := 0; a < len(c.Progs); a++ {
 		for b := a + 1; b < len(c.Progs); b++ {
 			for _, x := range c.Progs[a] {
@@ -300,12 +328,12 @@ func c07Contended(c scCase) bool {
 					if x == y {
 						return true
 					}
-					for _, rel := range scCfg[x] {
+					for _, rel := range c07ScCfg[x] {
 						if rel.Target == y {
 							return true
 						}
 					}
-					for _, rel := range scCfg[y] {
+					for _, rel := range c07ScCfg[y] {
 						if rel.Target == x {
 							return true
 						}
@@ -319,7 +347,7 @@ func c07Contended(c scCase) bool {
 
 // c07JudgeSched: property-level judgement on the observed results of a forced schedule, independent of the model:
 // all error-free returns for one type must be the same object and have all relation fields set.
-func c07JudgeSched(r *Result, c scCase, obs map[string]interface{}) {
+func c07JudgeSched(r *Result, c c07ScCase, obs map[string]interface{}) {
 	rets, _ := obs["rets"].([][][]interface{})
 	byTy := map[int]int{}
 	for _, tr := range rets {
@@ -334,7 +362,7 @@ func c07JudgeSched(r *Result, c scCase, obs map[string]interface{}) {
 				return
 			}
 			byTy[ty] = o
-			if nrel != len(scCfg[ty]) {
+			if nrel != len(c07ScCfg[ty]) {
 				r.Violate(Violation{Kind: "e2e", Suite: "sched", Input: c, Observed: obs, Expected: "all relation fields set at return",
 					Note: "schema.Parse returned a schema whose relations are incomplete"})
 				return
@@ -343,14 +371,14 @@ func c07JudgeSched(r *Result, c scCase, obs map[string]interface{}) {
 	}
 }
 
-type scRet struct {
+type c07ScRet struct {
 	ty   int
 	ptr  *schema.Schema
 	err  bool
 	nrel int
 }
 
-func scOwnRelCount(s *schema.Schema) int {
+func c07ScOwnRelCount(s *schema.Schema) int {
 	s.Relationships.Mux.RLock()
 	defer s.Relationships.Mux.RUnlock()
 	n := 0
@@ -362,18 +390,18 @@ func scOwnRelCount(s *schema.Schema) int {
 	return n
 }
 
-// scRunReal executes the forced schedule on the real schema package with a fresh (cold) cacheStore.
-func scRunReal(c scCase, steps []scStep) (map[string]interface{}, string) {
+// c07ScRunReal executes the forced schedule on the real schema package with a fresh (cold) cacheStore.
+func c07ScRunReal(c c07ScCase, steps []c07ScStep) (map[string]interface{}, string) {
 	g := len(c.Progs)
 	cache := &sync.Map{}
 	namer := schema.NamingStrategy{}
-	ctl := &scController{gids: map[int64]int{}, events: make(chan scEvent, 1024)}
+	ctl := &c07ScController{gids: map[int64]int{}, events: make(chan c07ScEvent, 1024)}
 	for t := 0; t < g; t++ {
 		ctl.release = append(ctl.release, make(chan struct{}))
 	}
-	scCtl.Store(ctl)
-	defer scCtl.Store(nil)
-	results := make([][]scRet, g)
+	c07ScCtl.Store(ctl)
+	defer c07ScCtl.Store(nil)
+	results := make([][]c07ScRet, g)
 	gids := make([]int64, g)
 	var wg sync.WaitGroup
 	ready := make(chan struct{}, g)
@@ -381,7 +409,7 @@ func scRunReal(c scCase, steps []scStep) (map[string]interface{}, string) {
 		wg.Add(1)
 		go func(t int) {
 			defer wg.Done()
-			gid := curGID()
+			gid := c07CurGID()
 			ctl.mu.Lock()
 			ctl.gids[gid] = t
 			gids[t] = gid
@@ -389,15 +417,15 @@ func scRunReal(c scCase, steps []scStep) (map[string]interface{}, string) {
 			ready <- struct{}{}
 			for _, ty := range c.Progs[t] {
 				ctl.park(t, "S", ty)
-				s, err := schema.Parse(scTypes[ty](), cache, namer)
-				rt := scRet{ty: ty, ptr: s, err: err != nil}
+				s, err := schema.Parse(c07ScTypes[ty](), cache, namer)
+				rt := c07ScRet{ty: ty, ptr: s, err: err != nil}
 				if s != nil {
-					rt.nrel = scOwnRelCount(s)
+					rt.nrel = c07ScOwnRelCount(s)
 				}
 				results[t] = append(results[t], rt)
 			}
 			if !ctl.free.Load() {
-				ctl.events <- scEvent{t, "D", 0}
+				ctl.events <- c07ScEvent{t, "D", 0}
 			}
 		}(t)
 	}
@@ -408,7 +436,7 @@ func scRunReal(c scCase, steps []scStep) (map[string]interface{}, string) {
 	for t := range status {
 		status[t] = "R"
 	}
-	apply := func(e scEvent) {
+	apply := func(e c07ScEvent) {
 		switch e.Kind {
 		case "S":
 			status[e.Tid] = "S"
@@ -449,7 +477,7 @@ func scRunReal(c scCase, steps []scStep) (map[string]interface{}, string) {
 			for t := 0; t < g; t++ {
 				obs[t] = status[t]
 				if status[t] == "R" && strings.HasPrefix(expected[t], "B") {
-					if goroutineState(gids[t]) == "chanrecv-parse" {
+					if c07GoroutineState(gids[t]) == "chanrecv-parse" {
 						obs[t] = "B"
 					}
 				}
@@ -527,21 +555,21 @@ func scRunReal(c scCase, steps []scStep) (map[string]interface{}, string) {
 			}
 		}
 	}
-	cacheOut := make([]int, len(scTypes))
-	for ty := range scTypes {
+	cacheOut := make([]int, len(c07ScTypes))
+	for ty := range c07ScTypes {
 		cacheOut[ty] = -1
-		if v, ok := cache.Load(reflect.TypeOf(scTypes[ty]()).Elem()); ok {
+		if v, ok := cache.Load(reflect.TypeOf(c07ScTypes[ty]()).Elem()); ok {
 			cacheOut[ty] = see(v.(*schema.Schema))
 		}
 	}
 	backName := map[string][2]int{}
-	for ty, rs := range scCfg {
+	for ty, rs := range c07ScCfg {
 		for k, rel := range rs {
-			backName["_"+scTypeNames[ty]+"_"+rel.Field] = [2]int{ty, k}
+			backName["_"+c07ScTypeNames[ty]+"_"+rel.Field] = [2]int{ty, k}
 		}
 	}
 	tyIdx := map[string]int{}
-	for i, n := range scTypeNames {
+	for i, n := range c07ScTypeNames {
 		tyIdx[n] = i
 	}
 	objs := [][]interface{}{}
